@@ -31,6 +31,7 @@ This module implements a "codec" for writing/reading Whoosh X indexes.
 
 import struct
 from array import array
+from copy import copy
 from collections import defaultdict
 
 from whoosh import columns, formats
@@ -918,6 +919,12 @@ class W3LeafMatcher(LeafMatcher):
         self._atend = False
         # Consume first block
         self._goto(self._baseoffset)
+
+    def copy(self):
+        # The cursor state is a handful of scalars plus immutable, lazily
+        # loaded block data, and every read seeks first, so a shallow copy
+        # sharing the (read-only) posting file is an independent cursor
+        return copy(self)
 
     def _goto(self, position):
         # Read the posting block at the given position
